@@ -659,8 +659,7 @@ func (sema *ExprSemanticsChecker) checkArrayDeref(n *ArrayDerefNode) ExprType {
 	case AnyType:
 		return &ArrayType{AnyType{}, true}
 	case *ArrayType:
-		ty.Deref = true
-		return ty
+		return &ArrayType{ty.Elem, true}
 	case *ObjectType:
 		// Object filtering is available for objects, not only arrays (#66)
 
